@@ -131,6 +131,7 @@ pub struct Case {
     pub alloc: bool,
     pub bs: bool,
     pub full: bool,
+    pub model: bool,
     pub bytes: Vec<u8>,
     pub toks: Vec<usize>, // optional token boundaries (indices into bytes where a token ends), informational
 }
@@ -146,13 +147,14 @@ impl Case {
             alloc: v["alloc"].as_u64().unwrap_or(1) != 0 || v["alloc"].as_bool().unwrap_or(false),
             bs: v["bs"].as_u64().unwrap_or(0) != 0,
             full: v["proj"].as_str().unwrap_or("geo") == "full",
+            model: v["model"].as_u64().unwrap_or(1) != 0,
             bytes: v["bytes"].as_array().map(|a| a.iter().map(|x| x.as_u64().unwrap_or(0) as u8).collect()).unwrap_or_default(),
             toks: vec![],
         }
     }
     pub fn to_json(&self) -> Value {
         json!({"id": self.id, "emu": self.emu, "music": self.music, "w": self.w, "h": self.h, "alloc": self.alloc as u8, "bs": self.bs as u8,
-               "proj": if self.full { "full" } else { "geo" }, "bytes": self.bytes})
+               "proj": if self.full { "full" } else { "geo" }, "model": self.model as u8, "bytes": self.bytes})
     }
 }
 
@@ -162,7 +164,7 @@ pub fn run_case(c: &Case, evs: &mut Vec<Value>, step_clock: Option<&AtomicU64>) 
     let mut caret = Caret::default();
     let mut parser = make_parser(&c.emu, c.music, c.bs);
     let s0 = snap(&buf, c.full);
-    let mut reset = json!({"ev":"reset","case":c.id,"emu":c.emu,"music":c.music,"w":c.w,"h":c.h,"alloc":c.alloc as u8,"bs":c.bs as u8,"proj": if c.full {"full"} else {"geo"}, "n": c.bytes.len()});
+    let mut reset = json!({"ev":"reset","case":c.id,"emu":c.emu,"music":c.music,"w":c.w,"h":c.h,"alloc":c.alloc as u8,"bs":c.bs as u8,"proj": if c.full {"full"} else {"geo"}, "model": c.model as u8, "n": c.bytes.len()});
     let st0 = state_event(&buf, &caret, &s0, &s0, c.full, true);
     for (k, v) in st0.as_object().unwrap() {
         reset[k] = v.clone();
@@ -200,6 +202,10 @@ pub fn run_case(c: &Case, evs: &mut Vec<Value>, step_clock: Option<&AtomicU64>) 
             // the property is already violated; the emulation's state after an unwound panic is not meaningful
             break;
         }
+    }
+    // background sixel decodes belong to this case: wait for them so that their time and memory are attributed to it
+    for h in buf.sixel_threads.drain(..) {
+        let _ = h.join();
     }
     fed
 }
@@ -428,7 +434,7 @@ pub fn gen_case(seed: u64, k: u64, emu: &str, big: bool, full: bool) -> Case {
         if r.gen_bool(0.5) { let i = r.gen_range(0..bytes.len()); bytes[i] = r.gen(); }
     }
     let small = w <= 16 && h <= 8;
-    Case { id: format!("g{seed}-{k}"), emu: emu.to_string(), music, w, h, alloc: r.gen_bool(0.5), bs: r.gen_bool(0.3), full: full && small, bytes, toks }
+    Case { id: format!("g{seed}-{k}"), emu: emu.to_string(), music, w, h, alloc: r.gen_bool(0.5), bs: r.gen_bool(0.3), full: full && small, model: true, bytes, toks }
 }
 
 // ------------------------------------------------------------------------------------------------ entry point
